@@ -349,3 +349,189 @@ macro_rules! float_conversion_values {
 }
 float_conversion_values!(float_conversion_values_i16, I16, i16);
 float_conversion_values!(float_conversion_values_i32, I32, i32);
+
+// ------------------------------------------------------------------------------------------------
+// C05: composite_preprocess -- what is converted with which bit depth before a frame is kept as a reference, when the
+// colour conversion for the record runs, and when composition is skipped.
+//   requires: grid = the frame's channels [colour x grid.color_channels] ++ [extra channel i], any sample types;
+//   ensures:  result == Ok(skip_blending), skip_blending <=> !is_normal_frame(frame_type) || resets_canvas;
+//             blend_done' == skip_blending (it was false);
+//             can_reference()  => every buffer is F32 afterwards, colour buffers converted with the IMAGE bit depth and extra
+//                                 channel i with ec_info[i].bit_depth -- aligned with grid.color_channels, NOT with the frame
+//                                 header's encoded colour channel count (a grey image is coded with 1 or 3 channels);
+//             !can_reference() => no buffer is touched;
+//             util::convert_color_for_record runs exactly when !(ct_done || save_before_ct || (skip_blending && is_last));
+//             colour channel count / ct_done are not changed by composite_preprocess itself.
+// Headers: BundleDefault::default_with_context + overwritten pub fields (never parsed). `IndexedFrame` cannot be built (Frame has
+// private fields): the frame is an uninitialised token and the two accessors the function calls are stubbed to return the
+// harness-owned headers. Assumed contracts (kani::stub): util::convert_color_for_record touches only colour channels (here:
+// nothing) and is counted; ImageBuffer::convert_to_float_modular is replaced by a RECORDING model -- an integer buffer becomes a
+// 1x1 F32 buffer holding the bit depth's bits_per_sample, an F32 buffer is kept -- (its value contract is ib.float_conversion_values_*;
+// the real one allocates through AlignedGrid::with_alloc_tracker, minutes of CBMC per call).
+// ------------------------------------------------------------------------------------------------
+static mut CP_IMG: *const ImageHeader = 0x4a58_4c5f_4350_4900usize as *const ImageHeader;
+static mut CP_FH: *const FrameHeader = 0x4a58_4c5f_4350_4600usize as *const FrameHeader;
+static mut CP_RECORD_CALLS: u64 = 0x4350_5f43_414c_4c00;
+const CP_RECORD_CALLS_BASE: u64 = 0x4350_5f43_414c_4c00;
+
+fn cp_stub_image_header(_f: &jxl_frame::Frame) -> &ImageHeader {
+    unsafe { &*CP_IMG }
+}
+fn cp_stub_header(_f: &jxl_frame::Frame) -> &FrameHeader {
+    unsafe { &*CP_FH }
+}
+fn cp_stub_convert_color_for_record(_h: &ImageHeader, _do_ycbcr: bool, _fb: &mut ImageWithRegion, _pool: &JxlThreadPool) -> Result<()> {
+    unsafe { CP_RECORD_CALLS += 1; }
+    Ok(())
+}
+
+/// field-for-field mirrors of jxl_grid::AlignedGrid (crates/jxl-grid/src/lib.rs:43-49), offset 0; the accessors are checked right
+/// after the transmute, so a layout mismatch fails the harness (untagged: UNDECIDED)
+#[allow(dead_code)]
+struct CpGridMirror<S> {
+    width: usize,
+    height: usize,
+    offset: usize,
+    buf: Vec<S>,
+    handle: Option<jxl_grid::AllocHandle>,
+}
+fn cp_grid_f32(v: f32) -> AlignedGrid<f32> {
+    let mut buf = Vec::with_capacity(1);
+    buf.push(v);
+    let g: AlignedGrid<f32> = unsafe { std::mem::transmute(CpGridMirror::<f32> { width: 1, height: 1, offset: 0, buf, handle: None }) };
+    assert!(g.width() == 1 && g.height() == 1 && g.buf().len() == 1 && g.buf()[0].to_bits() == v.to_bits() && g.tracker().is_none());
+    g
+}
+fn cp_grid_i32(v: i32) -> AlignedGrid<i32> {
+    let mut buf = Vec::with_capacity(1);
+    buf.push(v);
+    let g: AlignedGrid<i32> = unsafe { std::mem::transmute(CpGridMirror::<i32> { width: 1, height: 1, offset: 0, buf, handle: None }) };
+    assert!(g.width() == 1 && g.height() == 1 && g.buf().len() == 1 && g.buf()[0] == v && g.tracker().is_none());
+    g
+}
+fn cp_grid_i16(v: i16) -> AlignedGrid<i16> {
+    let mut buf = Vec::with_capacity(1);
+    buf.push(v);
+    let g: AlignedGrid<i16> = unsafe { std::mem::transmute(CpGridMirror::<i16> { width: 1, height: 1, offset: 0, buf, handle: None }) };
+    assert!(g.width() == 1 && g.height() == 1 && g.buf().len() == 1 && g.buf()[0] == v && g.tracker().is_none());
+    g
+}
+
+fn cp_recording_convert(buffer: &mut ImageBuffer, bit_depth: BitDepth) -> Result<&mut AlignedGrid<f32>> {
+    if buffer.as_float().is_none() {
+        let old = std::mem::replace(buffer, ImageBuffer::F32(cp_grid_f32(bit_depth.bits_per_sample() as f32)));
+        std::mem::forget(old);
+    }
+    Ok(buffer.as_float_mut().unwrap())
+}
+
+const CP_IMAGE_BITS: u32 = 10;
+const CP_EC_BITS: [u32; 2] = [16, 12];
+
+/// grid: `color_channels` colour buffers (I32, except buffer 0 which is F32 when `first_is_float`) + 2 extra channels (I16, I32)
+fn composite_preprocess_contract(color_channels: usize) {
+    use jxl_oxide_common::BundleDefault;
+    let size = <jxl_image::SizeHeader as BundleDefault<()>>::default_with_context(());
+    let mut metadata = <jxl_image::ImageMetadata as BundleDefault<()>>::default_with_context(());
+    metadata.bit_depth = BitDepth::IntegerSample { bits_per_sample: CP_IMAGE_BITS };
+    metadata.ec_info.push(jxl_image::ExtraChannelInfo { bit_depth: BitDepth::IntegerSample { bits_per_sample: CP_EC_BITS[0] }, ..Default::default() });
+    metadata.ec_info.push(jxl_image::ExtraChannelInfo { ty: jxl_image::ExtraChannelType::Depth, bit_depth: BitDepth::IntegerSample { bits_per_sample: CP_EC_BITS[1] }, ..Default::default() });
+    let img = ImageHeader { size, metadata };
+    let mut fh = <FrameHeader as BundleDefault<&ImageHeader>>::default_with_context(&img);
+    fh.frame_type = match kani::any::<u8>() & 3 {
+        0 => jxl_frame::header::FrameType::RegularFrame,
+        1 => jxl_frame::header::FrameType::LfFrame,
+        2 => jxl_frame::header::FrameType::ReferenceOnly,
+        _ => jxl_frame::header::FrameType::SkipProgressive,
+    };
+    fh.is_last = kani::any();
+    fh.duration = kani::any();
+    fh.save_as_reference = kani::any();
+    kani::assume(fh.save_as_reference <= 3);
+    fh.resets_canvas = kani::any();
+    fh.save_before_ct = kani::any();
+    fh.do_ycbcr = kani::any();
+    let ct_done: bool = kani::any();
+    let first_is_float: bool = kani::any();
+
+    let n = color_channels + 2;
+    let mut buffer = Vec::with_capacity(5);
+    let mut regions = Vec::with_capacity(5);
+    let mut c = 0;
+    while c < n {
+        buffer.push(if c == 0 && first_is_float {
+            ImageBuffer::F32(cp_grid_f32(-1.0))
+        } else if c == color_channels {
+            ImageBuffer::I16(cp_grid_i16(-(c as i16) - 1))
+        } else {
+            ImageBuffer::I32(cp_grid_i32(-(c as i32) - 1))
+        });
+        regions.push((Region::with_size(1, 1), ChannelShift::from_shift(0)));
+        c += 1;
+    }
+    let mut grid = ImageWithRegion { buffer, regions, color_channels, ct_done, blend_done: false, tracker: None };
+
+    let frame = core::mem::MaybeUninit::<IndexedFrame>::uninit();
+    let frame: &IndexedFrame = unsafe { &*frame.as_ptr() };
+    unsafe {
+        CP_IMG = &img;
+        CP_FH = &fh;
+        CP_RECORD_CALLS = CP_RECORD_CALLS_BASE;
+    }
+    let pool = JxlThreadPool::none();
+    let r = composite_preprocess(frame, &mut grid, &pool);
+
+    let normal = matches!(fh.frame_type, jxl_frame::header::FrameType::RegularFrame | jxl_frame::header::FrameType::SkipProgressive);
+    let skip = !normal || fh.resets_canvas;
+    let can_reference = !fh.is_last && (fh.duration == 0 || fh.save_as_reference != 0) && !matches!(fh.frame_type, jxl_frame::header::FrameType::LfFrame);
+    assert!(matches!(r, Ok(s) if s == skip), "[C05] composite_preprocess returns Ok(skip_blending), skip_blending <=> not a normal frame or the frame resets the canvas");
+    assert!(grid.blend_done == skip, "[C05] blend_done is set exactly when composition is skipped");
+    let record_calls = unsafe { CP_RECORD_CALLS } - CP_RECORD_CALLS_BASE;
+    let expect_record = !(ct_done || fh.save_before_ct || (skip && fh.is_last));
+    assert!(record_calls == if expect_record { 1 } else { 0 },
+        "[C05] the colour conversion for the record runs exactly when it is not done yet, the frame is not saved before the colour transform, and the frame is not a last frame that skips composition");
+    assert!(grid.color_channels == color_channels && grid.ct_done == ct_done && grid.buffer.len() == n, "[C05] composite_preprocess itself does not change the channel list or the ct_done flag");
+
+    let c = kani::any::<u8>() as usize;
+    kani::assume(c < n);
+    if can_reference {
+        let Some(g) = grid.buffer[c].as_float() else { panic!("[C05] a frame that can be referenced has every channel converted to float") };
+        let got = g.buf()[0];
+        if c == 0 && first_is_float {
+            assert!(got == -1.0, "[C05] a channel that already is float is kept");
+        } else if c < color_channels {
+            assert!(got == CP_IMAGE_BITS as f32, "[C05,C15] colour channels are converted with the image bit depth");
+        } else {
+            assert!(got == CP_EC_BITS[c - color_channels] as f32, "[C05,C15] extra channel i is converted with ec_info[i].bit_depth (aligned with the grid's colour channel count)");
+        }
+    } else {
+        let untouched = match &grid.buffer[c] {
+            ImageBuffer::F32(g) => c == 0 && first_is_float && g.buf()[0] == -1.0,
+            ImageBuffer::I16(g) => c == color_channels && g.buf()[0] == -(c as i16) - 1,
+            ImageBuffer::I32(g) => g.buf()[0] == -(c as i32) - 1,
+        };
+        assert!(untouched, "[C05] a frame that cannot be referenced has no buffer converted by composite_preprocess");
+    }
+    kani::cover!(can_reference && c == n - 1 && skip);
+    kani::cover!(can_reference && !skip && expect_record);
+    kani::cover!(!can_reference && !expect_record && skip && fh.is_last);
+    kani::cover!(!can_reference && expect_record && !skip);
+    std::mem::forget(r);
+    std::mem::forget(grid);
+}
+
+macro_rules! composite_preprocess_harness {
+    ($name:ident, $cc:expr) => {
+        #[kani::proof]
+        #[kani::unwind(7)]
+        #[kani::stub(jxl_frame::Frame::image_header, cp_stub_image_header)]
+        #[kani::stub(jxl_frame::Frame::header, cp_stub_header)]
+        #[kani::stub(util::convert_color_for_record, cp_stub_convert_color_for_record)]
+        #[kani::stub(ImageBuffer::convert_to_float_modular, cp_recording_convert)]
+        fn $name() {
+            composite_preprocess_contract($cc);
+        }
+    };
+}
+composite_preprocess_harness!(composite_preprocess_gray, 1);
+composite_preprocess_harness!(composite_preprocess_rgb, 3);
